@@ -1,6 +1,8 @@
 (* Props/C01.v — rawdb: every region reads back exactly its own bytes, across any history.
    Statements only.  FULL statement (target; proved parts are listed as theorems below): *)
-From Anydb Require Import Common.Base Gen.Consts Rawdb.AMap Rawdb.Alloc Rawdb.AllocSpec Rawdb.AllocInv Rawdb.AllocFacts Gen.Exprs Rawdb.ExprFacts.
+From Anydb Require Import Common.Base Gen.Consts Rawdb.AMap Rawdb.Alloc Rawdb.AllocSpec Rawdb.AllocInv Rawdb.AllocFacts.
+
+From Anydb Require Import Gen.Exprs Rawdb.ExprFacts.
 
 (* every step of the allocator model refines the per-name byte-vector reference, with the same
    result, from every state satisfying the extent invariant *)
@@ -25,6 +27,89 @@ Theorem C01_mem_copy_frame :
   forall m src dst n a, mem_copy m src dst n a = if (dst <=? a) && (a <? dst + n) then m (a - dst + src) else m a.
 Proof. exact mem_copy_spec. Qed.
 Print Assumptions C01_mem_copy_frame.
+
+From Anydb Require Import Rawdb.AllocNoPanic Rawdb.AllocRefine Rawdb.AllocRefineAll Rawdb.SpecCongr Rawdb.InvStep Rawdb.InvFinal.
+
+(* REFUTED: the full one-step statement.  Witness: AllocNoPanic.big_state (one region with
+   len = reserved = MAX_RESERVED_SIZE = 1 TiB) and Write 1 _ 1: op_fits holds (1 <= MAX/4) but the
+   reserve doubles to 2 TiB and the assert `reserved <= MAX_RESERVED_SIZE` of
+   region_metadata.rs:92 panics, while the reference answers Ok. *)
+Theorem C01_refines_step_refuted : ~ C01_refines_step_full.
+Proof. exact c01_full_refuted. Qed.
+Print Assumptions C01_refines_step_refuted.
+
+(* PARTIAL: the full statement with op_fits strengthened to op_fits_strong (for the three write
+   operations additionally: current length + n <= MAX_RESERVED_SIZE / 2); op_defined is no longer
+   needed.  Nothing else is missing: all 15 operations (Retain: refused and successful branch),
+   all four placement paths, errors, persistence flag, handles. *)
+Theorem C01_refines_step_partial :
+  forall s o, Inv s -> op_fits_strong s o ->
+    spec_eq (abs (fst (step_total s o))) (fst (spec_step (abs s) o))
+    /\ res_agree (snd (step_total s o)) (snd (spec_step (abs s) o)).
+Proof. exact c01_refines_step_partial. Qed.
+Print Assumptions C01_refines_step_partial.
+
+(* the same with the weakest side conditions: no panic and no RegionSizeOverflow refusal *)
+Theorem C01_refines_step_cond :
+  forall s o, Inv s -> step s o <> APanic -> no_overflow s o -> refines_step s o.
+Proof. exact c01_refines_step. Qed.
+Print Assumptions C01_refines_step_cond.
+
+(* over histories, trace form: every step refines the reference applied to the abstraction of
+   the state it starts from *)
+Theorem C01_refines_trace :
+  forall ops s, Inv s -> ops_ok s ops ->
+  forall pre o post, ops = pre ++ o :: post -> refines_step (run s pre) o.
+Proof. exact refines_run. Qed.
+Print Assumptions C01_refines_trace.
+
+(* over histories, single-run form: ONE run of the reference from the abstraction of the start
+   state simulates the whole history (spec_step is a congruence for spec_eq on states with unique
+   names: SpecCongr.spec_step_congr), with stepwise agreeing results *)
+Theorem C01_refines :
+  forall ops s, Inv s -> ops_ok s ops ->
+  spec_eq (abs (run s ops)) (spec_run (abs s) ops) /\
+  Forall2 res_agree (run_results s ops) (spec_results (abs s) ops).
+Proof. exact refines_run_single. Qed.
+Print Assumptions C01_refines.
+
+(* a step addressed at some region names leaves every other name's reference entry alone *)
+Theorem C01_isolation : forall s o ids id',
+  Inv s -> op_fits_strong s o -> op_ids o = Some ids -> ~ In id' ids ->
+  same_region (sget id' (sp_regions (abs (fst (step_total s o))))) (sget id' (sp_regions (abs s))).
+Proof. exact c01_isolation_strong. Qed.
+Print Assumptions C01_isolation.
+
+(* reopen keeps exactly the persisted regions, with their bytes, and drops all handles *)
+Theorem C01_reopen : forall s, Inv s ->
+  spec_eq (abs (fst (step_total s Reopen)))
+          (mkSpec (filter (fun kv => s_persisted (snd kv)) (sp_regions (abs s))) []).
+Proof. exact refines_reopen. Qed.
+Print Assumptions C01_reopen.
+
+Definition C01_never_panics_full : Prop := forall s o, Inv s -> op_fits s o -> step s o <> APanic.
+
+(* REFUTED as stated (same witness as above); PARTIAL with op_fits_strong *)
+Theorem C01_never_panics_refuted : exists s o, Inv s /\ op_fits s o /\ step s o = APanic.
+Proof. exact never_panics_refuted. Qed.
+Print Assumptions C01_never_panics_refuted.
+
+Theorem C01_never_panics_partial : forall s o, Inv s -> op_fits_strong s o -> step s o <> APanic.
+Proof. exact never_panics. Qed.
+Print Assumptions C01_never_panics_partial.
+
+(* the side conditions are satisfiable along a real history *)
+Theorem C01_example : ops_ok (init 0) [Create 1 false; Write 1 (gen_byte 1) 5000; Flush; Reopen].
+Proof. exact ex_ops_ok. Qed.
+Print Assumptions C01_example.
+
+(* ... including both branches of the repaired retain_regions *)
+Theorem C01_example_retain :
+  ops_ok (init 0) [Create 1 false; Create 2 true; Retain []; DropHandle 2; Retain [2]; Retain []]
+  /\ run_results (init 0) [Create 1 false; Create 2 true; Retain []; DropHandle 2; Retain [2]; Retain []]
+     = [Ok OUnit; Ok OUnit; Err RegionStillReferenced; Ok OUnit; Ok OUnit; Ok OUnit].
+Proof. exact (conj ex_ops_ok_retain ex_retain_results). Qed.
+Print Assumptions C01_example_retain.
 
 (* the arithmetic of write_with / set_min_len / truncate in the model is the arithmetic of the
    source (Gen/Exprs.v is re-translated from /repo on every run) *)
